@@ -60,7 +60,14 @@ func (s Stack) Apply(opt *Option, profile string) (string, error) {
 		if _, ok := opt.ArgMap[name]; !ok {
 			continue // the X flag
 		}
-		stackedProfile := prebuild.RootApparmord.Join(name).MustReadFileAsString()
+		stackedFile := prebuild.RootApparmord.Join(name)
+		stackedProfile := stackedFile.MustReadFileAsString()
+
+		// The stacked profile may not have been processed yet: expand its own directives first
+		stackedProfile, err := Run(stackedFile, stackedProfile)
+		if err != nil {
+			return "", err
+		}
 		m := regRules.FindStringSubmatch(stackedProfile)
 		if len(m) < 2 {
 			return "", fmt.Errorf("no profile found in %s", name)
